@@ -10,7 +10,7 @@ ID = "C07"
 LEVEL = "exploration"
 LEVEL_TEXT = ("Complete enumeration of directive (.db/.dw/.dl/.pointer) x list length 1-3 x 19 value kinds per position "
               "(boundary, wider than the field, negative, backward/forward label, `=` symbol, `:=` constant), all .ascii strings "
-              "<=3 over a 7-symbol alphabet (incl. the escaped quote), and .incbin for every (length, placement, file name) of a boundary family "
+              "<=3 over a 9-symbol alphabet (incl. the escaped quote and /* */ inside the string), lists of 4..300 values, and .incbin for every (length, placement, file name) of a boundary family "
               "including lengths that end just before/at/after a bank end, each program assembled by the real assembler and "
               "compared byte-for-byte, label-for-label with the packing model. Tests check one .dl, one .dw list and one .ascii.")
 LEVEL_NOTE = ("Trusted: value mod 256^w little-endian; mc/ref/bus.py for offsets and the bank wrap of labels after a file. "
@@ -32,7 +32,7 @@ KC, KE = 0x123456, 0x654321
 
 def bound(tier):
     return ("4 directives x lists of length 1..3 over 19 value kinds (17+289+4913 lists each); 259 .ascii strings; .incbin: 9 lengths "
-            "x 2 placements x 2 file names x 2 buses" + ("; plus every file length 0..300 at the bank end" if tier == "thorough" else ""))
+            "x 2 placements x 2 file names x 2 buses, each file also rewritten with new content of the same length and re-assembled; lists of 4..300 values x 4 directives" + ("; plus every file length 0..300 at the bank end" if tier == "thorough" else ""))
 
 
 def cases(tier, seed):
@@ -41,6 +41,8 @@ def cases(tier, seed):
             for k0 in range(len(KINDS)):
                 yield ("data", d, n, k0)
     yield ("ascii",)
+    for d in WIDTH:
+        yield ("long-list", d)
     for busname in ("low_rom", "high_rom"):
         for place in ("start", "near-end"):
             for fname in ("d.bin", "sub/d.x.bin"):
@@ -114,7 +116,8 @@ def run_data(d, n, k0):
 
 
 def run_ascii():
-    alphabet = ["a", "Z", "0", " ", "~", ";", "\\'"]  # the last symbol is an escaped quote: backslash + quote, kept verbatim
+    # the escaped quote (backslash + quote) is kept verbatim; comment delimiters inside a string are ordinary text
+    alphabet = ["a", "Z", "0", " ", "~", ";", "\\'", "/*", "*/"]
     viol = []
     evals = 0
     ref = refbus.lorom()
@@ -185,13 +188,52 @@ def run_incbin(busname, place, fname, tier):
             viol.append({"key": "incbin:wrong-symbols", "msg": f"{busname} len={ln}: labels {labels}, expected {sym}={fstart:#x} after={after:#x}"})
             outcomes.add("WRONG-SYMBOLS")
             continue
+        if ln:
+            # the same file name, same length, NEW content, assembled again at once in this process: the new bytes count
+            content2 = bytes(b ^ 0xFF for b in content)
+            out2 = impl.assemble(src, rom=busname, files={fname: content2})
+            evals += 1
+            exp2 = refs + content2 + bytes.fromhex("ddee07bb") + refs
+            if not out2.accepted or out2.blocks != [(ref.phys(start), exp2)]:
+                viol.append({"key": "incbin:stale-file-content", "msg": f"{busname} len={ln}: after rewriting {fname} with new bytes of the same length the output is "
+                             f"{'unchanged (old bytes)' if out2.blocks == out.blocks else out2.brief()[:80]}"})
+                outcomes.add("STALE-CONTENT")
+                continue
         outcomes.add("ok-crossing" if crossing else "ok")
         if example is None and crossing:
             example = {"source": src, "file_length": ln, "labels": {k: hex(v) for k, v in labels.items()}}
     return {"evals": evals, "nt_count": nt, "outcome": sorted(outcomes), "violations": viol[:10], "example": example}
 
 
+def run_long_list(d):
+    """Lists of 4..300 values: every element packed to exactly its width, in order, whatever the list length."""
+    w = WIDTH[d]
+    ref = refbus.lorom()
+    viol = []
+    evals = 0
+    for n in (4, 7, 8, 15, 16, 17, 31, 32, 33, 64, 100, 255, 256, 300):
+        vals = [((i * 0x01010101) ^ (i << 3) ^ 0x00A5C3) & 0xFFFFFFFF if i % 5 else -(i + 1) for i in range(n)]
+        for per_line in (n, 8):
+            lines = []
+            for k in range(0, n, per_line):
+                lines.append(f"{d} " + ", ".join(hex(v) if v >= 0 else "-" + hex(-v) for v in vals[k:k + per_line]))
+            src = f"*=0x{ORG:06x}\n" + "\n".join(lines) + "\nafter:\n.dw 0xEEDD\n"
+            exp = b"".join((v % (256 ** w)).to_bytes(w, "little") for v in vals) + b"\xdd\xee"
+            out = impl.assemble(src, rom="low_rom")
+            evals += 1
+            if not out.accepted:
+                viol.append({"key": f"data:rejected:{d}:long-list", "msg": f"{n} values: {out.brief()}"})
+            elif out.blocks != [(ref.phys(ORG), exp)] or dict(out.labels).get("after") != ORG + n * w:
+                got = b"".join(b for _, b in out.blocks)
+                where = next((i for i, (x, y) in enumerate(zip(got, exp)) if x != y), min(len(got), len(exp)))
+                viol.append({"key": f"data:wrong-bytes:{d}:long-list",
+                             "msg": f"{d} list of {n} values ({per_line} per line): output differs at byte {where} (got {len(got)} bytes, expected {len(exp)}); after={dict(out.labels).get('after')}"})
+    return {"evals": evals, "nt_count": evals, "outcome": "long-lists-ok" if not viol else "LONG-LIST-VIOLATION", "violations": viol[:6]}
+
+
 def run_case(case):
+    if case[0] == "long-list":
+        return run_long_list(case[1])
     if case[0] == "data":
         return run_data(*case[1:])
     if case[0] == "ascii":
